@@ -37,7 +37,7 @@ EXPLANATION = (
     "equal the header's.  Header::decode's Ok fact (48+q+b did not overflow and equals length) is derived from decode's own "
     "body and exported to its callers.  accept-guards: each Ok exit is guarded by magic ok, length == 48+q+b, frame present "
     "(exact variants: no trailing bytes); returned query/body are buf[48..48+q] and buf[48+q..48+q+b].  No raw-pointer or "
-    "unchecked operation occurs in these functions.  Not decided: behaviour of the process under real memory pressure; "
+    "unchecked operation occurs in these functions.  stream-fills-frame: the four stream readers succeed only after the whole frame was read - the Message-returning readers reach Message::new only through a successful read_exact over the whole query/body vector (or its is_empty() edge) and a header buffer a successful read_exact filled; the frame-into-buffer readers reach Ok only when the regions filled by successful read_exact calls chain from 0 to len(buf) and len(buf) == 48+q+b; the local io::read_exact helper returns Ok only on the destination-exhausted edge, advances by exactly the count read and turns a 0-byte read into an error (tokio/std read_exact are trusted by contract).  Not decided: behaviour of the process under real memory pressure; "
     "panics inside std/tokio/serde callees other than the enumerated ones (assumed not to panic on any input)."
 )
 ASSUMPTIONS = [
@@ -585,6 +585,7 @@ def run(facts, R):
 
     # ---- accept-guards
     accept_guards(cx, facts, R)
+    stream_fills_frame(cx, facts, R)
     R.note("obligations=%d discharged=%d" % (cx.obligations, cx.discharged))
     run.cx = cx
 
@@ -649,6 +650,201 @@ def accept_guards(cx, facts, R):
             R.check(okc and eq, "accept-guards", path, "Ok-exit",
                     "exact variant accepts without {inner parse Ok: %s, len(buf) == 48+len(query)+len(body): %s}" % (okc, eq), s.get("span"),
                     "guarded by from_slice Ok and len(buf) == 48 + q + b")
+
+
+# ---------------------------------------------------------------------------------------------------------------
+# stream-fills-frame: a stream reader succeeds only after the *whole* frame was read (a truncated stream is an error)
+
+EXACT_FILL_AXIOM = ("tokio::io::AsyncReadExt::read_exact", "std::io::Read::read_exact")
+LOCAL_FILL = "io::read_exact"
+_ORD = __import__("re").compile(r"#\d+")
+
+
+def _strip_ready(e):
+    """Try::branch arg -> underlying call: peel `(poll(fut, cx) as Ready).0`, into_future, pin wrappers."""
+    for _ in range(8):
+        if e[0] == "field" and e[2] in ("0", 0):
+            e = e[1]
+        elif e[0] in ("downcast", "variant"):
+            e = e[1]
+        elif e[0] == "call" and e[1].rsplit("::", 1)[-1] in ("poll", "into_future", "new_unchecked", "new", "get_unchecked_mut") and e[2]:
+            e = e[2][0]
+        else:
+            break
+    return e
+
+
+def _fill_calls_ok_at(b, sym, facts, bb):
+    """read_exact call nodes whose `?` Continue edge dominates bb."""
+    from analysis.guards import facts_at
+    out = []
+    for f in facts_at(b, sym, facts, bb):
+        e = f["expr"]
+        if not (e[0] == "call" and e[1].endswith("::branch") and str(f["val"]) == "Continue"):
+            continue
+        c = _strip_ready(e[2][0])
+        if c[0] == "call" and (c[1] == LOCAL_FILL or c[1] in EXACT_FILL_AXIOM):
+            out.append(c)
+    return out
+
+
+def _check_local_fill_helper(cx, facts, R):
+    """io::read_exact returns Ok only once the destination slice is exhausted, consumes exactly n per read, and
+    treats n == 0 as an error."""
+    from analysis.guards import facts_at
+    if LOCAL_FILL not in facts.bodies:
+        return False
+    b = facts.body(LOCAL_FILL)
+    sym = Sym(b)
+    oks = blocks_assigning_variant(b, "std::result::Result", "Ok")
+    good = bool(oks)
+    for i, j, s in oks:
+        fs = facts_at(b, sym, facts, i)
+        em = [f for f in fs if f["expr"][0] == "call" and f["expr"][1].endswith("is_empty") and f["val"] is True]
+        good = good and bool(em)
+    R.check(good, "stream-fills-frame", LOCAL_FILL, "Ok only when the destination is exhausted",
+            "io::read_exact can return Ok while the destination slice still has unread space (short read accepted)", b.span,
+            "every Ok exit is on the is_empty() edge")
+    # n == 0 is an error exit
+    errs = blocks_assigning_variant(b, "std::result::Result", "Err")
+    zero_err = False
+    for i, j, s in errs:
+        for f in facts_at(b, sym, facts, i):
+            t = render(f["expr"])
+            if "read" in t and ("Eq 0" in t and f["val"] is True or "Ne 0" in t and f["val"] is False or f["val"] == 0):
+                zero_err = True
+    R.check(zero_err, "stream-fills-frame", LOCAL_FILL, "a 0-byte read (EOF) is an error",
+            "io::read_exact has no error exit for read() == 0", b.span, "Err on n == 0")
+    # the slice is advanced by exactly n
+    adv = [(i, t) for i, t in b.calls() if t["callee"]["name"] == "index_mut"]
+    ok_adv = False
+    for i, t in adv:
+        a = cx.affine(LOCAL_FILL)
+        rb = a.range_bounds(a.state_at(term_pt(b, i)), t["args"][1])
+        if rb and rb[0] == "RangeFrom":
+            r = render(sym.op(_range_start_operand(b, t["args"][1])))
+            ok_adv = "read" in r and "Continue" in r
+    R.check(ok_adv, "stream-fills-frame", LOCAL_FILL, "advance by the number of bytes read",
+            "io::read_exact does not re-slice its destination as [n..] with n the read() result", b.span, "buf = &mut buf[n..]")
+    return True
+
+
+def _range_start_operand(b, rng_op):
+    p = op_place(rng_op)
+    d = b.defs_of(p["l"])[0][3]
+    return dict(zip(d["fields"], d["ops"]))["start"]
+
+
+def _is_qb(form, c):
+    ks = sorted(k[1].rsplit(".", 1)[-1] if k[0] == "sym" else str(k) for k in form.t)
+    return form.c == c and ks == ["body_length", "query_length"] and all(v == 1 for v in form.t.values())
+
+
+def stream_fills_frame(cx, facts, R):
+    from analysis.flow import must_cross
+    from analysis.guards import facts_at
+    _check_local_fill_helper(cx, facts, R)
+    n_into = n_msg = 0
+    for path in ENTRIES:
+        if not (path.startswith("io::read_message") or path.startswith("async_io::read_message")):
+            continue
+        b = facts.body(path)
+        sym = Sym(b)
+        a = cx.affine(path)
+        fills = [(i, t) for i, t in b.calls() if t["callee"]["path"] == LOCAL_FILL or t["callee"]["path"] in EXACT_FILL_AXIOM]
+        news = [(i, t) for i, t in b.calls() if callee_matches(t["callee"], MSG_NEW)]
+        if news:
+            # Message-returning reader: header array + two vectors, each filled completely or empty
+            n_msg += 1
+            for i, t in news:
+                okc = _fill_calls_ok_at(b, sym, facts, i)
+                # header: decode's input is a buffer some successful read_exact filled
+                hdr = sym.op(t["args"][0])
+                dec = [c for c in sym_calls(hdr) if c[1] == DECODE]
+                hdr_ok = bool(dec) and any(_ORD.sub("", render(c[2][1])) == _ORD.sub("", render(dec[0][2][0])) for c in okc)
+                R.check(hdr_ok, "stream-fills-frame", path, "header bytes come from a completed read_exact",
+                        "the header handed to Header::decode is not the buffer a successful read_exact filled", t.get("span"))
+                for k, nm in ((1, "query"), (2, "body")):
+                    vexpr = render(sym.op(t["args"][k]))
+                    vp = op_place(t["args"][k])
+                    vl = a.root_local(vp) if vp is not None else None
+                    defs = b.defs_of(vl) if vl is not None else []
+                    if len(defs) != 1:
+                        R.bad("stream-fills-frame", path, "%s buffer has one definition" % nm, "cannot identify the %s buffer" % nm, t.get("span"))
+                        continue
+                    ev = set()
+                    for bb in b.live_blocks():
+                        for f in facts_at(b, sym, facts, bb):
+                            e = f["expr"]
+                            if e[0] == "call" and e[1].endswith("::branch") and str(f["val"]) == "Continue":
+                                c = _strip_ready(e[2][0])
+                                if c[0] == "call" and (c[1] == LOCAL_FILL or c[1] in EXACT_FILL_AXIOM) and render(c[2][1]) == vexpr:
+                                    ev.add((bb, 0))
+                            if e[0] == "call" and e[1].endswith("is_empty") and f["val"] is True and render(e[2][0]) == vexpr:
+                                ev.add((bb, 0))
+                    w = must_cross(b, [(0, 0)], [term_pt(b, i)], ev, after_start=False)
+                    R.check(w is None and bool(ev), "stream-fills-frame", path, "%s vector is read completely (or is empty) before the message is built" % nm,
+                            "a path reaches Message::new without a successful read_exact over the whole %s vector (blocks %s): a stream truncated inside the %s would be accepted"
+                            % (nm, w, nm), t.get("span"), "read_exact(.., &mut %s)? or %s.is_empty() on every path" % (nm, nm), path=w)
+        else:
+            # frame-into-buffer reader
+            n_into += 1
+            oks = blocks_assigning_variant(b, "std::result::Result", "Ok")
+            R.floor("stream-fills-frame", len(oks), 1, "Ok exits of " + path)
+            for i, j, s in oks:
+                okc = _fill_calls_ok_at(b, sym, facts, i)
+                regs = []
+                base = None
+                for c in okc:
+                    ix = c[2][1]
+                    while ix[0] == "call" and ix[1].rsplit("::", 1)[-1] in ("deref_mut", "as_mut_slice", "as_mut", "borrow_mut") and ix[2]:
+                        ix = ix[2][0]
+                    if ix[0] == "call" and ix[1].rsplit("::", 1)[-1] == "index_mut":
+                        tb = ix[3]
+                        tt = b.term(tb)
+                        rb = a.range_bounds(a.state_at(term_pt(b, tb)), tt["args"][1])
+                        if rb is None:
+                            continue
+                        kind, st_, en_, hs, he = rb
+                        regs.append((st_, en_ if he else None))
+                        base = tt["args"][0]
+                    else:
+                        regs.append((Form.const(0), None))
+                st = a.state_at((i, j))
+                # the destination vector: second parameter of the reader
+                ln = None
+                if base is not None:
+                    ln = a.len_form(st, base)
+                regs_s = sorted(regs, key=lambda r: (len(r[0].t), r[0].c))
+                cover = Form.const(0)
+                chained = bool(regs_s)
+                for st_, en_ in regs_s:
+                    if st_ != cover:
+                        chained = False
+                        break
+                    cover = en_ if en_ is not None else ln
+                    if cover is None:
+                        chained = False
+                        break
+                whole = chained and ln is not None and cover == ln and _is_qb(ln, 48)
+                R.check(whole, "stream-fills-frame", path, "Ok only after read_exact covered [0, 48+q+b) and len(buf) == 48+q+b",
+                        "on the Ok exit the regions filled by successful read_exact calls are %s and len(buf) = %s: they do not chain from 0 to 48+query_length+body_length, "
+                        "so a truncated stream can be reported as a complete frame" % ([(str(x), str(y)) for x, y in regs_s], ln), s.get("span"),
+                        "regions %s, len(buf)=%s" % ([(str(x), str(y)) for x, y in regs_s], ln))
+    R.exact("stream-fills-frame", n_msg, 2, "message-returning stream readers")
+    R.exact("stream-fills-frame", n_into, 2, "frame-into-buffer stream readers")
+
+
+def sym_calls(e):
+    out = []
+    def rec(x):
+        if isinstance(x, tuple):
+            if x and x[0] == "call":
+                out.append(x)
+            for y in x:
+                rec(y)
+    rec(e)
+    return out
 
 
 def extra_coverage(reports):
